@@ -7,7 +7,8 @@
      cast  <size> <w1>,<w2>,...
      byval <sz>
    stdout: "hi8=<n> class8=<c|-> within8=<T|F> hi1=<n> class1=<c|-> within1=<T|F>"
-   (8 = the code as it is: pointer-width tag store; 1 = with the proposed tag-width fix) *)
+   (8 = pointer-width tag store (before fix 38e2441); 1 = tag stored as one byte (the code as it is);
+    S = additionally aggregates copied with `size` bytes: fix candidate C02-2/3) *)
 open Conv
 open Footprint
 open FootprintProofs
@@ -42,5 +43,10 @@ let () =
         Printf.sprintf "hi%s=%d class%s=%s within%s=%s" tag (int_of_n (FootprintSpec.hi fp))
           tag (match known_class tw o with Some c -> string_of_int (int_of_n c) | None -> "-")
           tag (if FootprintSpec.within (dest_size o) fp then "T" else "F") in
-      print_endline (one 8 "8" ^ " " ^ one 1 "1")
+      let fixed =
+        let fp = footprint_sz (n_of_int 1) o in
+        Printf.sprintf "hiS=%d classS=%s withinS=%s" (int_of_n (FootprintSpec.hi fp))
+          (match known_class_sz o with Some c -> string_of_int (int_of_n c) | None -> "-")
+          (if FootprintSpec.within (dest_size o) fp then "T" else "F") in
+      print_endline (one 8 "8" ^ " " ^ one 1 "1" ^ " " ^ fixed)
     with e -> print_endline ("ERR:" ^ Printexc.to_string e))
